@@ -16,7 +16,7 @@ for pid in ids:
         "thorough_cmd": "./check %s --tier thorough" % pid,
         "evidence_file": "/verif/evidence/%s.json" % pid,
         "replay_cmd_template": "./check %s --replay {path}" % pid,
-        "engine": "contracts",
+        "engine": c.get("engine", "contracts"),
         "level_claimed": {"category": c["level"], "text": c["level_text"], "design_ref": c.get("design_ref", "DESIGN.md §4.1 " + pid)},
         "level_note": c["level_note"],
         "technique": c["technique"],
@@ -37,8 +37,10 @@ m = {
         "add_only": True,
     },
     "engines": [
-        {"name": "contracts", "path": "/verif/check", "serves_properties": [c["property_id"] for c in checks],
+        {"name": "contracts", "path": "/verif/check", "serves_properties": [c["property_id"] for c in checks if c["engine"] == "contracts"],
          "kind_free_text": "contract-based deductive verification: Verus (unbounded, functions sliced from /repo each run with an erasure check) and Kani/CBMC (harness modules injected insert-only into a scratch copy of /repo)"},
+        {"name": "bounded-standin", "path": "/verif/check", "serves_properties": [c["property_id"] for c in checks if c["engine"] == "bounded-standin"],
+         "kind_free_text": "BOUNDED stand-in only (the brief's fallback for functions neither verifier can reach): the property's contract evaluated on an enumerated, stated set of inputs of the real code; nothing proved, level 'exploration'"},
     ],
     "checks": checks,
     "not_applicable": nal,
